@@ -44,6 +44,12 @@ def lemma(name, **opts):
     return deco
 
 
+def invariant(qualname, loop=0):
+    def deco(fn):
+        return fn
+    return deco
+
+
 def requires(cond):
     if not cond:
         raise Skip()
